@@ -39,6 +39,28 @@ def gen_progs(chk):
             if cls in (2, 3) and d > 9:
                 d = 10
             progs.append((B.insn(o, d, s, off, imm) + B.EXIT, 'opcode'))
+    # code density: runs of one instruction form (the size of the emitted code per eBPF instruction varies from 1 to ~45 bytes;
+    # any size estimate must hold for the worst form), at lengths around powers of two
+    for o in C05.SUPPORTED:
+        cls = o & 7
+        if o == 0x95:
+            continue
+        for n in (127, 128, 509) if not thorough else (63, 64, 127, 128, 129, 255, 509, 1021, 4093):
+            for (d, s) in ((7, 8), (0, 1)):
+                if o == 0x18:
+                    one = B.insn(o, d, 0, 0, -1) + B.insn(0, 0, 0, 0, -1)
+                    body = one * (n // 2)
+                elif o == 0x85:
+                    body = (B.insn(o, 0, 1, 0, 0) if d == 7 else B.insn(o, 0, 0, 0, 1)) * n
+                elif o in (0xd4, 0xdc):
+                    body = B.insn(o, d, 0, 0, 64) * n
+                elif o in (0xc3, 0xdb):
+                    body = B.insn(o, d if d <= 9 else 9, s, 8, 0) * n
+                elif o == 0x05 or cls in (5, 6):
+                    body = B.insn(o, d, s, 0, 5) * n
+                else:
+                    body = B.insn(o, d, s, -8, 0x7fffffff) * n
+                progs.append((body + B.EXIT, 'dense'))
     # last-instruction kinds, dead code, back edges
     progs += [(B.EXIT, 'shape'), (B.ja(1) + B.EXIT + B.ja(-2), 'shape'), (B.mov(0, 1) + B.EXIT + B.mov(0, 2) + B.EXIT, 'shape'),
               (B.mov(0, 0) + B.alu('add', 0, imm=1) + B.jmp('jlt', 0, -2, imm=10) + B.EXIT, 'shape'),
